@@ -124,6 +124,16 @@ CLAIMED = {
              "Two defects of the pinned tree (accepted ')(' , non-terminating System) were repaired by fix: commits.",
         technique="Lean 4 proofs of validation branches and loop termination + differential accept/reject check on a malformed stream",
         ref="7/C15"),
+    "C16": dict(
+        text="Lean model of gen_reaction_graph (the three passes, NetworkX merge semantics) compared edge by edge and attribute by attribute with the real graph of "
+             "every molecule; theorems: atom edges exactly for weight >= 0, weight edges join compatible descriptors only, normalisation of the weight rule and "
+             "of explicit lists, equality of the written probability with the generator's vector (C08) when weights are not all zero, and the witness that the "
+             "code's own validate_graph only checks the last node. Oracle: per-node sums for every descriptor node and the generator's law recomputed from "
+             "the parsed object.",
+        note="Hypotheses the proof forces (reported, exercised on the code): all compatible weights zero (generator uniform, graph has no edge); a left terminal "
+             "with a transition list; a user-written connector offering two compatible positive-weight descriptors (each gets trans_prob 1).",
+        technique="Lean 4 proofs about the graph construction + edge-by-edge differential check + per-node oracle",
+        ref="7/C16"),
 }
 
 NOT_YET = {}
